@@ -546,8 +546,10 @@ def run_property(mod_name, tier, seed, only=None, nproc=None):
           "coverage": coverage, "assumptions": getattr(mod, "ASSUMPTIONS", []),
           "wall_s": round(wall, 2), "violations": len(violations)}
     if not only:
-        os.makedirs(os.path.join(VERIF_DIR, "evidence"), exist_ok=True)
-        with open(os.path.join(VERIF_DIR, "evidence", f"{prop}.json"), "w") as f:
+        # experiments against a patched scratch tree (tools/seed_matrix.py, tools/neutral_matrix.py) redirect their evidence
+        evdir = os.environ.get("VERIF_EVIDENCE_DIR") or os.path.join(VERIF_DIR, "evidence")
+        os.makedirs(evdir, exist_ok=True)
+        with open(os.path.join(evdir, f"{prop}.json"), "w") as f:
             json.dump(ev, f, indent=1, default=_json_default, sort_keys=True)
             f.write("\n")
 
